@@ -36,6 +36,11 @@ PATHLIB_METHODS = {"write_text", "write_bytes", "touch", "mkdir", "unlink", "rmd
 EXEC_BUILTINS = {"eval", "exec", "compile", "__import__"}
 EXEC_EXT = {"importlib.import_module", "importlib.__import__", "runpy.run_path", "runpy.run_module",
             "builtins.eval", "builtins.exec"}
+# deserialisers that construct arbitrary objects / call arbitrary callables named in the data: code execution by another name
+DESERIALIZE = {"yaml.load", "yaml.load_all", "yaml.unsafe_load", "yaml.unsafe_load_all", "yaml.full_load", "yaml.full_load_all",
+               "yaml.Loader", "yaml.UnsafeLoader", "yaml.FullLoader", "yaml.CLoader", "yaml.CUnsafeLoader", "yaml.CFullLoader",
+               "pickle.load", "pickle.loads", "pickle.Unpickler", "marshal.load", "marshal.loads", "shelve.open", "dill.load",
+               "dill.loads", "cloudpickle.load", "cloudpickle.loads", "jsonpickle.decode"}
 PROC_MODULES = {"subprocess", "multiprocessing", "pty"}
 PROC_OS = {"system", "popen", "execv", "execve", "execl", "execlp", "execvp", "spawnl", "spawnv", "spawnlp",
            "spawnvp", "fork", "startfile", "posix_spawn", "kill"}
@@ -284,6 +289,8 @@ class Translator:
         parts = dotted.split(".")
         top, last = parts[0], parts[-1]
         if dotted in EXEC_EXT or (top == "importlib" and last in ("import_module", "__import__", "exec_module")):
+            return "KExec"
+        if dotted in DESERIALIZE:
             return "KExec"
         if top in PROC_MODULES or (top == "os" and last in PROC_OS):
             return "KProc"
